@@ -6,7 +6,9 @@ import (
 	"google.golang.org/protobuf/internal/strs"
 )
 
-// Signatures of the collisions that exist on the unchanged tree (known-findings.txt).  Each is a
+// Signatures of the collisions that exist on the unchanged tree (known-findings.txt).  (Two former classes,
+// protoreflect-not-reserved and oneof-releases-get-name, were repaired in /repo by 25d16a6 and f3220dc and are
+// no longer classified: a recurrence is a VIOLATION.)  Each is a
 // conjunction of concrete predicates on the schema, on the names protogen assigned to it and on the
 // identifier that is declared twice; a duplicate declaration that satisfies none of them is reported
 // unclassified and is a VIOLATION.
@@ -20,14 +22,9 @@ const (
 	// open API: the method Get<Oneof> generated for a oneof is not reserved by makeNameUnique(name, false)
 	// ("this assumes that a getter method is not generated for oneofs. This is incorrect", protogen.go).
 	sigOneofGetter = "oneof-getter-not-reserved"
-	// open API: makeNameUnique(name, false) executes usedNames["Get"+name] = false and thereby releases a
-	// name that an earlier field or oneof holds; a later oneof or field is given that same Go name.
-	sigOneofRelease = "oneof-releases-get-name"
 	// opaque API: resolveCamelCaseConflicts looks at fields only; a oneof whose camelCase equals the
 	// camelCase of a field or of another oneof gets the same Has/Clear/Which method names.
 	sigOneofCamel = "opaque-oneof-camelcase-collision"
-	// open API: ProtoReflect is a method of every generated message but is missing from usedNames.
-	sigProtoReflect = "protoreflect-not-reserved"
 )
 
 func count[T any](xs []T, p func(T) bool) int {
@@ -38,25 +35,6 @@ func count[T any](xs []T, p func(T) bool) int {
 		}
 	}
 	return n
-}
-
-// dupGoNames returns the Go names carried by two struct members (fields or oneofs): the state that only
-// the "release" defect can produce.
-func dupGoNames(ns *Names) []string {
-	cnt := map[string]int{}
-	for _, f := range ns.Fields {
-		cnt[f.GoName]++
-	}
-	for _, o := range ns.Oneofs {
-		cnt[o.GoName]++
-	}
-	var out []string
-	for n, k := range cnt {
-		if k >= 2 {
-			out = append(out, n)
-		}
-	}
-	return out
 }
 
 func wasSuffixed(m *MsgSpec, i int, camel string) bool {
@@ -76,19 +54,6 @@ func lowerFirst(s string) string {
 
 // classify explains one duplicate declaration, or returns "".
 func classify(m *MsgSpec, ns *Names, d Dup) string {
-	// (release) two struct members were given one Go name, and the duplicate identifier is built from it
-	for _, g := range dupGoNames(ns) {
-		if strings.Contains(d.Name, g) || strings.Contains(d.Scope, g) {
-			// the release needs a oneof whose "Get"+name was held by somebody
-			for _, o := range ns.Oneofs {
-				held := count(ns.Fields, func(f FieldNames) bool { return f.GoName == "Get"+o.GoName }) +
-					count(ns.Oneofs, func(p OneofNames) bool { return p.GoName == "Get"+o.GoName })
-				if held > 0 {
-					return sigOneofRelease
-				}
-			}
-		}
-	}
 	inMsg := d.Scope == ns.MsgIdent
 	inBuilder := d.Scope == ns.MsgIdent+"_builder"
 	if !inMsg && !inBuilder {
@@ -119,10 +84,6 @@ func classify(m *MsgSpec, ns *Names, d Dup) string {
 	}
 	n := d.Name
 	if d.Level == "API_OPEN" {
-		if n == "ProtoReflect" && count(ns.Fields, func(f FieldNames) bool { return f.GoName == n })+
-			count(ns.Oneofs, func(o OneofNames) bool { return o.GoName == n }) == 1 {
-			return sigProtoReflect
-		}
 		// the duplicate disappears when the Get methods of the oneofs are left out
 		other := 0
 		for i, f := range ns.Fields {
